@@ -23,6 +23,7 @@ type Compiled struct {
 	nodes  []*node
 	intern map[string]int
 	dcache map[[2]int]int
+	ngLive map[int]bool
 	macros map[string]*Rx
 	Err    string // compile problem (undefined macro etc.)
 }
@@ -51,12 +52,13 @@ type node struct {
 	a, b  int      // nCat: a then b; nStar: a
 	alts  []int    // nAlt: sorted ids
 	null  bool
+	ng    bool // nStar of a non-greedy repetition
 }
 
 const idEmpty, idEps = 0, 1
 
 func Compile(s *Spec) *Compiled {
-	c := &Compiled{Spec: s, intern: map[string]int{}, dcache: map[[2]int]int{}, macros: map[string]*Rx{}, ModeIndex: map[string]int{}, TokIndex: map[string]int{}}
+	c := &Compiled{Spec: s, intern: map[string]int{}, dcache: map[[2]int]int{}, ngLive: map[int]bool{}, macros: map[string]*Rx{}, ModeIndex: map[string]int{}, TokIndex: map[string]int{}}
 	for _, m := range s.Macros {
 		c.macros[m.Name] = m.Rx
 	}
@@ -220,6 +222,42 @@ func (c *Compiled) star(a int) int {
 	return c.mk(fmt.Sprintf("*%d", a), &node{k: nStar, a: a, null: true})
 }
 
+// starNG is the star of a non-greedy repetition: the same language, but a node
+// of its own, so that a derivative shows whether a non-greedy loop is still open.
+func (c *Compiled) starNG(a int) int {
+	if a == idEmpty || a == idEps {
+		return idEps
+	}
+	return c.mk(fmt.Sprintf("*?%d", a), &node{k: nStar, a: a, null: true, ng: true})
+}
+
+// NGLive reports whether the expression still contains an open non-greedy
+// repetition: after `[0-9]+? '.'` has been read from `[0-9]+? '.' [0-9]*` it
+// does not (what is left is greedy), after `'/*' .*? '*/'` has read "/* */" it
+// does (`.` also matched the terminator, the loop goes on in parallel).
+func (c *Compiled) NGLive(id int) bool {
+	if v, ok := c.ngLive[id]; ok {
+		return v
+	}
+	c.ngLive[id] = false // cycles cannot occur (nodes are a DAG), this is only the memo
+	n := c.nodes[id]
+	v := false
+	switch n.k {
+	case nStar:
+		v = n.ng || c.NGLive(n.a)
+	case nCat:
+		v = c.NGLive(n.a) || c.NGLive(n.b)
+	case nAlt:
+		for _, x := range n.alts {
+			if c.NGLive(x) {
+				v = true
+			}
+		}
+	}
+	c.ngLive[id] = v
+	return v
+}
+
 func (c *Compiled) build(r *Rx, depth int) int {
 	if depth > 20 {
 		return idEmpty
@@ -260,10 +298,14 @@ func (c *Compiled) build(r *Rx, depth int) int {
 			return x
 		case COpt:
 			return c.alt(x, idEps)
-		case CStar, CStarNG:
+		case CStar:
 			return c.star(x)
-		case CPlus, CPlusNG:
+		case CPlus:
 			return c.cat(x, c.star(x))
+		case CStarNG:
+			return c.starNG(x)
+		case CPlusNG:
+			return c.cat(x, c.starNG(x))
 		}
 	}
 	panic("bad rx")
